@@ -21,6 +21,12 @@ def main() -> int:
         seed = int(os.environ.get("VERIF_SEED", "0"))
     except ValueError:
         seed = 0
+    import resource
+
+    try:  # backstop: a runaway exploration must kill this check, not the machine (workers have their own 6 GiB limit)
+        resource.setrlimit(resource.RLIMIT_AS, (32 << 30, 32 << 30))
+    except (ValueError, OSError):
+        pass
     from mc import core
 
     core.setup_repo_import()
